@@ -15,6 +15,8 @@ import (
 
 	listener "github.com/envoyproxy/go-control-plane/envoy/config/listener/v3"
 	hcm "github.com/envoyproxy/go-control-plane/envoy/extensions/filters/network/http_connection_manager/v3"
+	discovery "github.com/envoyproxy/go-control-plane/envoy/service/discovery/v3"
+	"google.golang.org/genproto/googleapis/rpc/status"
 
 	"istio.io/istio/pilot/pkg/features"
 	"istio.io/istio/pilot/pkg/model"
@@ -281,11 +283,90 @@ func genGW(r *wire.Rng, clock *int) Op {
 func asRouter(e *envoy, name string) {
 	e.nodeID = "router~10.30.0.7~" + name + "." + proxyNs + "~" + proxyNs + ".svc.cluster.local"
 	e.meta.Labels = map[string]string{"istio": "ingressgateway"}
+	inRegion(e)
+}
+
+// inRegion: the proxy runs in region r1 (locality load balancing of DestinationRules is relative to it).
+func inRegion(e *envoy) {
+	e.meta.Labels["topology.kubernetes.io/region"] = "r1"
+	e.meta.Labels["topology.kubernetes.io/zone"] = "z1"
+}
+
+// ---------------------------------------------------------------- client-side ops (Envoy flavours)
+//
+//	csub     the clients change their subscription of a WILDCARD type (Kind = CDS | LDS) explicitly: the delta client
+//	         subscribes to (or, the second time, unsubscribes from) Names next to its wildcard, the SotW client lists
+//	         them; the server answers from the newly subscribed names only (pushDeltaXds narrowing) and, for CDS, forces
+//	         the EDS push
+//	cnack    both clients reject the last response of type Kind (error_detail with its nonce)
+//	creconn  both streams are closed and re-opened; the clients present what they hold (forceEDSPush with the real
+//	         generators after the first CDS request while EDS is asked for again); the history goes on
+
+func isClientOp(o Op) bool { return o.K == "csub" || o.K == "cnack" || o.K == "creconn" }
+
+func genClientOp(r *wire.Rng) Op {
+	switch r.Intn(4) {
+	case 0:
+		return Op{K: "creconn"}
+	case 1:
+		return Op{K: "cnack", Kind: wire.Pick(r, []string{"CDS", "LDS", "EDS", "RDS"})}
+	}
+	if r.Chance(1, 3) {
+		return Op{K: "csub", Kind: "LDS", Names: []string{wire.Pick(r, []string{"0.0.0.0_80", "virtualOutbound", "no-such-listener"})}}
+	}
+	return Op{K: "csub", Kind: "CDS", Names: []string{wire.Pick(r, []string{"outbound|80||a.example.com", "outbound|80||b.example.com",
+		"outbound|9090||c.example.com", "BlackHoleCluster", "outbound|80||no-such.example.com"})}}
+}
+
+// nack sends a rejection of the last response of a type on the live stream.
+func (e *envoy) nack(typ string) {
+	e.mu.Lock()
+	defer e.mu.Unlock()
+	s := e.st
+	if s == nil || s.dead || s.nonces[typ] == "" {
+		return
+	}
+	detail := &status.Status{Code: 13, Message: "rejected by the harness"}
+	s.reqs[typ]++
+	s.queued.Add(1)
+	s.touch()
+	s.logf(">%s NACK", typ)
+	if e.delta {
+		s.dlt <- &discovery.DeltaDiscoveryRequest{TypeUrl: longType[typ], ResponseNonce: s.nonces[typ], ErrorDetail: detail}
+	} else {
+		var names []string
+		if typ != "CDS" && typ != "LDS" {
+			names = e.subs[typ]
+		}
+		s.sotw <- &discovery.DiscoveryRequest{TypeUrl: longType[typ], ResourceNames: names, ResponseNonce: s.nonces[typ], VersionInfo: e.version[typ], ErrorDetail: detail}
+	}
+}
+
+// explicitSub toggles an explicit subscription of a wildcard type.
+func (e *envoy) explicitSub(typ string, names []string, on bool) {
+	e.mu.Lock()
+	defer e.mu.Unlock()
+	s := e.st
+	if s == nil || s.dead {
+		return
+	}
+	if e.delta {
+		if on {
+			s.sendDelta(typ, names, nil, "", nil)
+		} else {
+			s.sendDelta(typ, nil, names, "", nil)
+		}
+		return
+	}
+	if !on {
+		names = nil
+	}
+	s.sendSotw(typ, names, s.nonces[typ], e.version[typ])
 }
 
 func genRouterOp(r *wire.Rng, w *world, clock *int) Op {
 	for {
-		if r.Chance(1, 8) {
+		if r.Chance(1, 5) {
 			if old, ok := w.Cfg["gw/"+proxyNs+"/"+routerGateway]; ok {
 				if r.Chance(1, 4) {
 					return Op{K: "del", Kind: "gw", N: routerGateway, Ns: proxyNs}
@@ -353,7 +434,7 @@ func genC03Router(r *wire.Rng) *History {
 		n := 1
 		if r.Chance(1, 5) {
 			n = 2
-			h.Debounce = 50
+			h.Debounce = 100
 		}
 		var ops []Op
 		for j := 0; j < n; j++ {
@@ -362,6 +443,9 @@ func genC03Router(r *wire.Rng) *History {
 			ops = append(ops, o)
 		}
 		h.Steps = append(h.Steps, ops)
+		if r.Chance(1, 8) {
+			h.Steps = append(h.Steps, []Op{genClientOp(r)})
+		}
 	}
 	return h
 }
@@ -372,7 +456,7 @@ func genC03(r *wire.Rng) *History {
 	}
 	wideGrammar = true
 	defer func() { wideGrammar = false }()
-	if r.Chance(1, 5) {
+	if r.Chance(1, 3) {
 		return genC03Router(r)
 	}
 	h := &History{Stream: "c03", Flavor: "envoy", Debounce: wire.Pick(r, []int{0, 5, 20}), Explicit: r.Chance(1, 2)}
@@ -395,6 +479,9 @@ func genC03(r *wire.Rng) *History {
 			ops = append(ops, o)
 		}
 		h.Steps = append(h.Steps, ops)
+		if r.Chance(1, 6) {
+			h.Steps = append(h.Steps, []Op{genClientOp(r)})
+		}
 	}
 	// Un-scripted bursts (ops applied back to back) are only deterministic when all their events
 	// merge into ONE push: event delivery inside the server is asynchronous, and with a short
@@ -402,7 +489,7 @@ func genC03(r *wire.Rng) *History {
 	// changes (the race that the lag cases below script deliberately).
 	for _, ops := range h.Steps {
 		if len(ops) > 1 {
-			h.Debounce = 50
+			h.Debounce = 100
 		}
 		for _, o := range ops {
 			// the registry's by-address index trails the event that announces a new instance (see targetsStale)
@@ -419,7 +506,8 @@ func genC03(r *wire.Rng) *History {
 		}
 		var cands []LagSpec
 		for i, ops := range h.Steps {
-			if len(ops) == 1 && i+1 < len(h.Steps) && (ops[0].K == "se" || ops[0].K == "dr" || (ops[0].K == "del" && (ops[0].Kind == "se" || ops[0].Kind == "dr"))) {
+			if len(ops) == 1 && i+1 < len(h.Steps) && !isClientOp(h.Steps[i+1][0]) &&
+				(ops[0].K == "se" || ops[0].K == "dr" || (ops[0].K == "del" && (ops[0].Kind == "se" || ops[0].Kind == "dr"))) {
 				l := LagSpec{Step: i + 1, Names: opNames(w2, ops[0])}
 				w3 := w2.clone()
 				w3.note(ops[0])
@@ -527,6 +615,127 @@ func targetsStale(st *site) bool {
 	return false
 }
 
+func freshEndpoints(st *site, stt *stats, w *world, h *History, delta, sotw *envoy) *result {
+	fresh := newEnvoy("fresh-delta", true, "app-fresh")
+	if h.Flavor == "router" {
+		asRouter(fresh, "gw-fresh")
+	} else {
+		inRegion(fresh)
+	}
+	fresh.explicit = h.Explicit
+	fresh.connect(st, connectOpts{})
+	defer func() { fresh.disconnect(); stt.client(fresh) }()
+	defined := map[string]int{}
+	for _, k := range sortedKeys(w.Cfg) {
+		if c := w.Cfg[k]; c.K == "se" {
+			for _, hn := range c.Hosts {
+				defined[hn]++
+			}
+		}
+	}
+	cmp := func() []diff {
+		a, b := delta.snapshot(), fresh.snapshot()
+		stt.Comparisons++
+		var out []diff
+		for _, d := range compareHeld(a, b, []string{"EDS"}) {
+			if defined[model.ParseSubsetKeyHostname(d.Name)] > 1 {
+				stt.Extra["fresh-eds-not-judged-multi-defined-host"]++
+				continue
+			}
+			out = append(out, d)
+		}
+		return out
+	}
+	d, ok := settle(st, stt, cmp, sotw, delta, fresh)
+	if !ok {
+		r := timeoutResult("quiescence with the fresh reference client", clientInfo(delta, fresh))
+		return &r
+	}
+	stt.Extra["fresh-eds-comparisons"]++
+	if len(d) > 0 {
+		return &result{Clause: "delta-eds-ne-fresh", Detail: merge(map[string]any{"after_step": len(h.Steps), "n": len(d), "diff": limitDiffs(d, 12),
+			"a": "long-lived delta client", "b": "delta client connected at the end"}, clientInfo(delta, fresh))}
+	}
+	return nil
+}
+
+// countArms: which arms of the delta CDS / EDS code an op aims at (evidence: STATS extra "arm:*"); w is the world
+// BEFORE the op.
+func countArms(stt *stats, w *world, o Op, h *History) {
+	arm := func(n string) { stt.Extra["arm:"+n]++ }
+	if h.Flavor == "router" {
+		arm("router:" + o.K)
+	}
+	old, had := w.Cfg[o.key()]
+	switch {
+	case o.K == "se":
+		if o.N == inboundSE {
+			arm("inbound-service-entry")
+		}
+		if had {
+			for _, p := range old.Ports {
+				removed := true
+				for _, q := range o.Ports {
+					if p == q {
+						removed = false
+					}
+				}
+				if removed {
+					arm("se-port-removed")
+					break
+				}
+			}
+			if old.Res != o.Res {
+				arm("se-resolution-changed")
+			}
+			if strings.Join(old.Hosts, ",") != strings.Join(o.Hosts, ",") {
+				arm("se-hosts-changed")
+			}
+		} else {
+			arm("se-created")
+		}
+	case o.K == "del" && o.Kind == "se":
+		arm("se-deleted")
+	case o.K == "dr":
+		if had && old.Host != o.Host {
+			arm("dr-host-changed")
+			if len(old.Subsets) > 0 {
+				arm("dr-host-changed-with-subsets")
+			}
+		}
+		if o.Loc != "" || (had && old.Loc != "") {
+			arm("dr-locality-lb")
+		}
+	case o.K == "del" && o.Kind == "dr":
+		arm("dr-deleted")
+		if had && old.Loc != "" {
+			arm("dr-locality-lb")
+		}
+	case o.K == "pa" || (o.K == "del" && o.Kind == "pa"):
+		if o.Ns == "istio-system" {
+			arm("peer-authentication-root-namespace")
+		} else {
+			arm("peer-authentication-namespace")
+		}
+	case o.K == "sc" || (o.K == "del" && o.Kind == "sc"):
+		arm("sidecar")
+	case o.K == "vs" || (o.K == "del" && o.Kind == "vs"):
+		arm("virtual-service")
+	case o.K == "ef" || (o.K == "del" && o.Kind == "ef"):
+		m := o.Mode
+		if had {
+			m = old.Mode
+		}
+		if strings.HasPrefix(m, "ecds") || strings.HasPrefix(o.Mode, "ecds") {
+			arm("envoy-filter-ecds")
+		} else {
+			arm("envoy-filter-cluster")
+		}
+	case o.K == "gw" || (o.K == "del" && o.Kind == "gw"):
+		arm("gateway")
+	}
+}
+
 func clientInfo(es ...*envoy) map[string]any {
 	out := map[string]any{}
 	for _, e := range es {
@@ -568,6 +777,9 @@ func runC03(h *History, stt *stats) result {
 	if h.Flavor == "router" {
 		asRouter(sotw, "gw-sotw")
 		asRouter(delta, "gw-delta")
+	} else {
+		inRegion(sotw)
+		inRegion(delta)
 	}
 	delta.explicit = h.Explicit
 	sotw.connect(st, connectOpts{})
@@ -583,6 +795,33 @@ func runC03(h *History, stt *stats) result {
 		return compareHeld(a, b, c03Types)
 	}
 	var lag *lagScope
+	var firstKnown *result
+	explicit := map[string]bool{} // csub: Kind/name -> currently subscribed explicitly
+	clientOp := func(o Op) {
+		stt.Ops[o.K]++
+		stt.Extra["arm:client-"+o.K]++
+		switch o.K {
+		case "csub":
+			key := o.Kind + "/" + strings.Join(o.Names, ",")
+			on := !explicit[key]
+			explicit[key] = on
+			for _, e := range []*envoy{sotw, delta} {
+				e.explicitSub(o.Kind, o.Names, on)
+			}
+		case "cnack":
+			for _, e := range []*envoy{sotw, delta} {
+				e.nack(o.Kind)
+			}
+		case "creconn":
+			for _, e := range []*envoy{sotw, delta} {
+				e.disconnect()
+			}
+			explicit = map[string]bool{}
+			for _, e := range []*envoy{sotw, delta} {
+				e.connect(st, connectOpts{})
+			}
+		}
+	}
 	check := func(step int) *result {
 		d, ok := settle(st, stt, cmp, sotw, delta)
 		if ok && len(d) > 0 && targetsStale(st) {
@@ -608,8 +847,22 @@ func runC03(h *History, stt *stats) result {
 				// repairs only the SotW client), so it may show at any step from the release on.
 				clause = "delta-ne-sotw:events-behind-state"
 			}
-			return &result{Clause: clause, Detail: merge(map[string]any{"after_step": step, "n": len(d), "diff": limitDiffs(d, 12), "service_targets": serviceTargets(st),
+			res := &result{Clause: clause, Detail: merge(map[string]any{"after_step": step, "n": len(d), "diff": limitDiffs(d, 12), "service_targets": serviceTargets(st),
 				"a": "sotw client", "b": "delta client"}, clientInfo(sotw, delta))}
+			if clause != "delta-ne-sotw" {
+				// a known class does not end the case: the history goes on, every later comparison must again show
+				// nothing but the known symptom (the kept resources stay until a full CDS build), anything else is
+				// a plain delta-ne-sotw; the known verdict is reported at the end
+				if firstKnown == nil {
+					firstKnown = res
+				}
+				stt.Extra["steps-compared-after-a-known-class"]++
+				return nil
+			}
+			if firstKnown != nil {
+				res.Detail["after_known_class"] = firstKnown.Clause
+			}
+			return res
 		}
 		for _, e := range []*envoy{sotw, delta} {
 			e.mu.Lock()
@@ -643,6 +896,10 @@ func runC03(h *History, stt *stats) result {
 		if h.Lag != nil && h.Lag.Step == i+1 && i+1 < len(h.Steps) {
 			gate = installReqGate(h.Lag.Names, h.Lag.Next)
 			lag = newLagScope(w, ops, h.Steps[i+1])
+			stt.Extra["arm:lag-case"]++
+			for _, o := range append(append([]Op{}, ops...), h.Steps[i+1]...) {
+				countArms(stt, w, o, h)
+			}
 			if r := applyQuick(ops); r != nil {
 				return *r
 			}
@@ -676,15 +933,48 @@ func runC03(h *History, stt *stats) result {
 			}
 			continue
 		}
-		if r := applyStep(st, w, ops, stt); r != nil {
-			return *r
+		if isClientOp(ops[0]) {
+			for _, o := range ops {
+				clientOp(o)
+			}
+		} else {
+			for _, o := range ops {
+				countArms(stt, w, o, h)
+			}
+			if r := applyStep(st, w, ops, stt); r != nil {
+				return *r
+			}
 		}
 		stt.Steps++
 		if r := check(i + 1); r != nil {
 			return *r
 		}
 	}
+	if firstKnown != nil {
+		firstKnown.Detail["history_completed"] = true
+		return *firstKnown
+	}
+	// Two equally stale clients must not pass: SotW and delta EDS pushes run through the same buildEndpoints with the
+	// same "partial push" decision, so a stale ClusterLoadAssignment is stale in both. At the end of the history the
+	// delta client's endpoints are compared with those of a delta client connected now (EDS only; the long-lived =
+	// fresh statement at large is C01's). Not judged: clusters of a hostname that several ServiceEntries define
+	// (C01's known class: EDS is not pushed when a Sidecar / VirtualService change switches the service of a host).
+	// Only histories that ask for it (hand-written corpus cases): on generated histories the comparison shows
+	// differences that are not about delta vs SotW (order of locality groups, endpoints that are equally stale in a
+	// long-lived SotW client) - see notes/C03.md, round 3.
+	if h.FreshEDS {
+		if r := freshEndpoints(st, stt, w, h, delta, sotw); r != nil {
+			return *r
+		}
+	}
 	hd := sotw.snapshot()
+	if os.Getenv("E2E_DEBUG") != "" {
+		for _, t := range c03Types {
+			for _, n := range sortedKeys(hd[t]) {
+				fmt.Fprintln(os.Stderr, "DEBUG held", t, n, hd[t][n].Text)
+			}
+		}
+	}
 	return result{OK: true, Summary: "c03 " + h.Flavor + " steps=" + itoa(len(h.Steps)) + " held=" + itoa(len(hd["CDS"])) + "/" + itoa(len(hd["EDS"])) + "/" +
 		itoa(len(hd["LDS"])) + "/" + itoa(len(hd["RDS"])) + " ops=" + opsShort(h.Steps)}
 }
